@@ -121,13 +121,15 @@ def run_tlc(module, cfg, outfile, workers=None, simulate=None, timeout=1800, ext
     return res
 
 
-def run_replay(family, infile, profile='debug', jobs=None, timeout_ms=10000, extra=None):
+def run_replay(family, infile, profile='debug', jobs=None, timeout_ms=10000, extra=None, env=None):
     binp = build_harness(profile)
     cmd = [binp, 'replay', family, '--in', infile, '--jobs', str(jobs or min(NCPU, 12)), '--timeout-ms', str(timeout_ms)]
     if extra:
         cmd += extra
     t = time.time()
-    p = subprocess.run(cmd, stdout=subprocess.PIPE, stderr=subprocess.PIPE, text=True)
+    e = dict(os.environ)
+    e.update(env or {})
+    p = subprocess.run(cmd, stdout=subprocess.PIPE, stderr=subprocess.PIPE, text=True, env=e)
     try:
         summary = json.loads(p.stdout.strip().splitlines()[-1])
     except Exception:
